@@ -458,6 +458,9 @@ size_t GlobalGraph::getNumberOfIncomingNeighbors(const Graph::NodeId node) const
 
 vector<Graph::NodeId> GlobalGraph::getNeighbors(const Graph::NodeId node) const
 {
+  // an undirected relation is recorded in both maps: list it once
+  if (!directed_)
+    return getNeighbors_(node, true);
   vector<Graph::NodeId> result;
   vector<Graph::NodeId> neighborsToInsert;
   neighborsToInsert = getNeighbors_(node, false);
@@ -921,6 +924,9 @@ Graph::EdgeId GlobalGraph::getEdge(Graph::NodeId nodeA, Graph::NodeId nodeB) con
 
 vector<Graph::EdgeId> GlobalGraph::getEdges(Graph::NodeId node) const
 {
+  // an undirected relation is recorded in both maps: list it once
+  if (!directed_)
+    return getEdges_(node, true);
   vector<Graph::EdgeId> result;
   vector<Graph::EdgeId> edgesToInsert;
   edgesToInsert = getEdges_(node, false);
